@@ -35,6 +35,7 @@ from vt import tasks_c29 as H
 from vt import wfprog as WP
 
 LEVEL = "exploration"
+PREF = {"bool": True, "str": "v1", "int": 7, "float": 1.5, "file": "@v1.txt", "list": ["v1", "v2"], "multi": ["v1", "v2"]}
 PARENT_SEED = int(os.environ.get("PYTHONHASHSEED", "0") or 0)
 
 
@@ -44,21 +45,21 @@ def task_descs(thorough):
     out = []
     for spec in T.single_field_defs():
         for v in T.values_for(spec["kind"]):
-            out.append(dict(kind="shell", spec=spec, value=v))
+            out.append(dict(kind="shell", spec=spec, value=v, pref=(v == PREF[spec["kind"]])))
     for kind, v in (("str", "v1"), ("list", ["v1", "v2"]), ("bool", True)):
         out.append(dict(kind="shell", spec=T.spec("f", kind, True, "-x", " ", None), value=v, exe=H.FAIL_EXE))
     for n in ((1, 2, 3) if thorough else (1, 2)):
         for spec in C03.programs(n):
-            out.append(dict(kind="wf", spec=spec, wfin=C03.WFIN))
+            out.append(dict(kind="wf", spec=spec, wfin=C03.WFIN, grp=f"n{n}"))
     for spec in C03.named_programs():
         spec = {k: v for k, v in spec.items() if k != "label"}
-        out.append(dict(kind="wf", spec=spec, wfin=C03.WFIN))
+        out.append(dict(kind="wf", spec=spec, wfin=C03.WFIN, grp="named"))
     for name, (spec, wfin) in sorted(WP.PROGRAMS.items()):
-        out.append(dict(kind="wf", spec=spec, wfin=wfin))
+        out.append(dict(kind="wf", spec=spec, wfin=wfin, grp="named"))
     for name, fail in (("chain3", {"b": True}), ("fanin", {"a": True}), ("split2_then", {"s": [1]}), ("nested", {"w/p": True}),
                        ("diamond_plus", {"d": True})):
         spec, wfin = WP.PROGRAMS[name]
-        out.append(dict(kind="wf", spec=WP.with_fail(spec, fail), wfin=wfin))
+        out.append(dict(kind="wf", spec=WP.with_fail(spec, fail), wfin=wfin, grp="named"))
     for kw in (dict(name="n", a=1), dict(name="n", a=[1, [2, "x"]], b={"k": 1.5}), dict(name="n", a=1, fail=True),
                dict(name="n", a=None, b=None)):
         out.append(dict(kind="py", cls="Op", kw=kw))
@@ -67,9 +68,27 @@ def task_descs(thorough):
     return out
 
 
-def runnable(desc, config):
-    """a workflow under the slurm worker cannot run without a cluster: checked for identity/configuration only"""
-    return not (desc["kind"] == "wf" and config.startswith("slurm"))
+def plan(desc, config, warm, thorough):
+    """-> "run" | "load" (identity and fields only) | None (combination not in this tier's bound)
+    * quick: every (shell class, value) under debug, one contributing value per class under cf / slurm; thorough: all
+    * a workflow under the slurm worker cannot run without a cluster: "load"
+    * process-pool runs of workflows cost ~1 s each: quick runs them for the programs with one node and the named ones,
+      thorough for every program with n<=2; the n=3 programs (thorough) run under debug-rich only"""
+    wname = config.split("-")[0]
+    if desc["kind"] == "shell" and not thorough and wname != "debug" and not desc.get("pref", True):
+        return None      # quick: every value under debug, one set value per class under cf / slurm
+    if desc["kind"] != "wf":
+        return "run"
+    grp = desc["grp"]
+    if grp == "n3":
+        if not warm or not config.endswith("-rich"):
+            return None
+        return "run" if wname == "debug" else "load"
+    if wname == "slurm":
+        return "load"
+    if wname == "cf" and not thorough and grp == "n2":
+        return "load"
+    return "run"
 
 
 # ------------------------------------------------------------------ phase 1: build, pickle, reference (pool) --------
@@ -77,7 +96,7 @@ def keep_dir(part):
     return Path(part.scratch).parent / "keep"
 
 
-def prepare_one(idx, desc, configs, warm_modes, keep, seed_of):
+def prepare_one(idx, desc, configs, warm_modes, keep, thorough):
     """-> (entries for the batch file, expectations) for one task descriptor; [] when pydra refuses the job"""
     import cloudpickle as cp
     from pydra.engine.job import Job
@@ -109,6 +128,9 @@ def prepare_one(idx, desc, configs, warm_modes, keep, seed_of):
     n = 0
     for config in configs:
         for warm in warm_modes:
+            todo = plan(desc, config, warm, thorough)
+            if todo is None:
+                continue
             eid = f"{idx}.{n}"
             n += 1
             croot = keep / "c" / eid
@@ -120,7 +142,7 @@ def prepare_one(idx, desc, configs, warm_modes, keep, seed_of):
             view = H.job_view(job)
             checksum = job.task._checksum
             job.submitter.worker.close()
-            run = runnable(desc, config) and ref["err"] != "hang"
+            run = todo == "run" and ref["err"] != "hang"
             entries.append(dict(id=eid, job_pkl=pkl, result_pkl=result_pkl if n == 1 else None, run=run,
                                 log=str(keep / "c" / f"{eid}.log")))
             exps.append(dict(id=eid, case=dict(task=desc, config=config, warm=warm), view=view, checksum=checksum,
@@ -133,7 +155,7 @@ def prepare(part, chunk):
     opts = prepare.opts
     entries, expfile = [], []
     for idx, desc in chunk:
-        es, ex = prepare_one(idx, desc, opts["configs"], opts["warm"], keep, None)
+        es, ex = prepare_one(idx, desc, opts["configs"], opts["warm"], keep, opts["thorough"])
         if "rejected" in ex:
             part.coverage["jobs_refused_at_construction"] = part.coverage.get("jobs_refused_at_construction", 0) + 1
             continue
@@ -178,9 +200,7 @@ def run_child(batch: Path, seed: int, timeout_per_entry=20):
             why = "child interpreter did not finish (killed)"
         finally:
             err.close()
-        done = sum(1 for _ in open(out)) - len([k for k in lost])
         done = sum(1 for _ in open(out))
-        reported = done - (done_before - 0)
         nxt = start + (done - done_before)
         if nxt >= n:
             break
@@ -276,6 +296,8 @@ def judge_entry(part, exp, common, rep):
         if "view_err" in ex:
             return bad("result-unreadable", f"child could not read its result: {ex['view_err']}")
         for k, name in (("outputs", "outputs"), ("errored", "errored"), ("argv", "argv"), ("log", "executed-bodies")):
+            if k == "log" and ref["err"] is not None:
+                continue    # which independent nodes still run beside a failing one depends on the worker, not on pickling
             if ex.get(k) != ref.get(k):
                 return bad(f"run-differs:{name}", f"{name}: in-process {ref.get(k)!r}; child {ex.get(k)!r}")
         exp_hooks = ref["hooks"] if case["config"].endswith("-rich") else []
@@ -308,7 +330,7 @@ def judge_entry(part, exp, common, rep):
             return bad("result-file-differs:errors", f"Result.errors: child {ex.get('res_file_errors')!r}; parent {mine_err!r}")
         cov["result_files_read_back_equal"] = cov.get("result_files_read_back_equal", 0) + 1
     else:
-        cov["not_run_slurm_workflow_or_hang"] = cov.get("not_run_slurm_workflow_or_hang", 0) + 1
+        cov["loaded_not_run"] = cov.get("loaded_not_run", 0) + 1
     # Result object round trip
     if exp["has_result"]:
         if "result_err" in rep:
@@ -354,14 +376,16 @@ def judge(part, chunk):
 
 
 # ------------------------------------------------------------------ driver -----------------------------------------
-def pipeline(ctx, descs, configs, warm, nproc):
+def pipeline(ctx, descs, configs, warm, nproc, thorough=False):
     from vt.par import pmap
     keep = ctx.scratch / "keep"
     for d in ("", "ref", "c", "files"):
         (keep / d).mkdir(exist_ok=True)
-    prepare.opts = dict(configs=configs, warm=warm)
+    prepare.opts = dict(configs=configs, warm=warm, thorough=thorough)
     items = list(enumerate(descs))
     chunk = max(1, min(60, len(items) // (nproc * 6) or 1))
+    nchunks = -(-len(items) // chunk)
+    items.sort(key=lambda t: (t[0] % nchunks, t[0]))    # every batch gets the same mix of cheap and expensive tasks
     t0 = time.time()
     pmap(ctx, prepare, items, chunk=chunk)
     t1 = time.time()
@@ -402,7 +426,7 @@ def run(ctx):
     ]
     ctx.coverage["task_descriptors"] = {k: sum(1 for d in descs if d["kind"] == k) for k in ("shell", "wf", "py")}
     ctx.coverage["configurations"] = configs
-    pipeline(ctx, descs, configs, warm, ctx.nproc)
+    pipeline(ctx, descs, configs, warm, ctx.nproc, ctx.thorough)
     ctx.violations[:] = spread(ctx.violations)
 
 
@@ -411,7 +435,9 @@ def replay(ctx, case):
     keep = ctx.scratch / "keep"
     for d in ("", "ref", "c", "files"):
         (keep / d).mkdir(exist_ok=True)
-    es, ex = prepare_one(0, case["task"], [case["config"]], [case.get("warm", True)], keep, None)
+    es, ex = prepare_one(0, case["task"], [case["config"]], [case.get("warm", True)], keep, True)
+    if not es:
+        return None
     if "rejected" in ex:
         return None
     batch = keep / "batch-000000.pkl"
